@@ -885,6 +885,22 @@ def loop_correspondence(ctx):
                        (f"{len(failing)} disagreements, first: {info[failing[0]] if failing else ''} hung={hung} " + log)[:800])
 
 
+def replay(ctx, rp):
+    """./check C01 --replay F : run the stored input through the extractor (or the CLI) under the watchdog."""
+    import c01_fuzz
+    data = common.replay_bytes(rp.get("input"))
+    if data is None:
+        print("replay file holds no complete input")
+        return
+    k, lab, m = rp["registry_key"], rp.get("label", "replay"), rp.get("cli_args")
+    res = c01_fuzz.run_cases([(k, lab, data, m)], nproc=1, case_timeout=60, total_timeout=80)
+    oc, det, secs = res.get(0, ("timeout", ">60s", 60))
+    print(f"replay {k} {lab} {m}: outcome={oc} detail={det} secs={secs:.1f}")
+    ctx.case((k, lab, len(data)), True, kind="replay:" + oc)
+    if oc in ("timeout", "foreign", "pollute", "cli-bad"):
+        ctx.finding(rp.get("key", f"replay:{oc}"), f"replayed: {rp.get('what', oc)} -> {oc} {det}", dict(rp, input=data))
+
+
 def run(ctx):
     import logging
     logging.disable(logging.CRITICAL)
